@@ -67,7 +67,7 @@ def build(t):
 def show(t):
     k = t[0]
     if k == "atom":
-        return t[1]
+        return t[1] if isinstance(t[1], str) and t[1] in ALPHA else repr(t[1])
     if k == "seq":
         return "(" + " ".join(show(p) for p in t[1]) + ")"
     if k == "alt":
@@ -551,6 +551,59 @@ def check_header_shapes(maxlen):
     return fails, n
 
 
+def check_isolation(maxlen):
+    """Candidates that are alive at the same time must not influence each other: every match find_all reports from position a
+    ends where a single pattern started at a - fed alone, with its own fresh predicates - has its last accepting state.
+    Patterns with stateful predicates, also nested inside composite ones; sequences over {id, (, ), [, ], o} up to maxlen."""
+    from pygments.token import Token as T
+    from codelimit.common.Token import Token
+    from codelimit.common.Location import Location
+    from codelimit.common.gsm.matcher import find_all
+    from codelimit.common.gsm.Expression import expression_to_nfa, nfa_to_dfa
+    from codelimit.common.gsm.Pattern import Pattern
+    from codelimit.common.gsm.operator.OneOrMore import OneOrMore
+    from codelimit.common.token_matching.predicate.Balanced import Balanced
+    from codelimit.common.token_matching.predicate.Name import Name
+    from codelimit.common.token_matching.predicate.Or import Or
+    from codelimit.common.token_matching.predicate.And import And
+    from codelimit.common.token_matching.predicate.Not import Not
+    mk = lambda ty, v: Token(Location(1, 1), ty, v)
+    toks = {"id": mk(T.Name, "x"), "(": mk(T.Punctuation, "("), ")": mk(T.Punctuation, ")"), "[": mk(T.Punctuation, "["),
+            "]": mk(T.Punctuation, "]"), "o": mk(T.Operator, "=")}
+    shapes = {"name (..)|[..] groups": lambda: [Name(), OneOrMore(Or(Balanced("(", ")"), Balanced("[", "]")))],
+              "name (..) groups": lambda: [Name(), OneOrMore(Balanced("(", ")"))],
+              "name (..)-and-not-name groups": lambda: [Name(), OneOrMore(And(Balanced("(", ")"), Not(Name())))]}
+    fails, n = [], 0
+    for pname, mkexpr in shapes.items():
+        for ln in range(1, maxlen + 1):
+            for seq in itertools.product(list(toks), repeat=ln):
+                if seq[0] != "id" and "id" not in seq[1:]:
+                    continue
+                n += 1
+                items = [toks[x] for x in seq]
+                st, ms = guarded(lambda: find_all(mkexpr(), items))
+                if st != "ok":
+                    continue        # ambiguity / errors are C03's and C15's statements
+                for m in ms:
+                    def alone():
+                        p = Pattern(m.start, nfa_to_dfa(expression_to_nfa(mkexpr())))
+                        last = None
+                        for k in range(m.start, len(items)):
+                            if not p.consume(items[k]):
+                                break
+                            if p.is_accepting():
+                                last = k + 1
+                        return last
+                    st2, e = guarded(alone)
+                    if st2 == "ok" and e != m.end:
+                        fails.append(("isolation", f"{pname} on {list(seq)}: match {(m.start, m.end)}, but a pattern started at {m.start} and fed alone "
+                                      f"last accepts at {e}", list(seq)))
+                        break
+                if len(fails) > 6:
+                    return fails, n
+    return fails, n
+
+
 def main():
     if sys.argv[1] == "--replay":
         rp = json.load(open(sys.argv[2]))
@@ -565,6 +618,11 @@ def main():
                     return ("seq", [tup(p) for p in x[1]])
                 return tuple([x[0]] + [tup(p) if isinstance(p, list) else p for p in x[1:]])
             return x
+        if "header_sequence" in rp["case"]:
+            sq = list(rp["case"]["header_sequence"])
+            found = [f for f in check_header_shapes(len(sq))[0] + check_isolation(len(sq))[0] if list(f[2]) == sq]
+            print(json.dumps({"reproduced": bool(found), "failures": [f[:2] for f in found[:3]]}))
+            return
         t = tup(rp["case"]["tree"])
         s = tuple(rp["case"]["sequence"])
         fs = check_c13(t, [s]) if prop == "C13" else check_c14(t, [s])
@@ -635,6 +693,9 @@ def main():
     extra_n = 0
     if prop == "C14":
         hf, extra_n = check_header_shapes(6 if tier == "quick" else 7)
+        hf2, n2 = check_isolation(5 if tier == "quick" else 6)
+        hf = list(hf) + list(hf2)
+        extra_n += n2
         seen_k = {}
         for kind, what, sq in hf:
             seen_k[kind] = seen_k.get(kind, 0) + 1
